@@ -86,6 +86,8 @@ pub fn main(tier: Tier, seed: u64) -> i32 {
         /// wherever the permits allow it
         Interleaved,
         Fail(crate::srv::RpcKey),
+        /// two coordination RPCs fail in the same run
+        Fail2(crate::srv::RpcKey, crate::srv::RpcKey),
         Cancel { pol: u8, party: u8, at: usize },
     }
     let mut jobs: Vec<(usize, Job)> = vec![];
@@ -110,6 +112,15 @@ pub fn main(tier: Tier, seed: u64) -> i32 {
                     && key.kind != Kind::Msg
                 {
                     jobs.push((bi, Job::Fail(*key)));
+                }
+            }
+            // thorough: every pair of failed coordination RPCs (small batches)
+            if tier.is_thorough() && k <= 2 {
+                let keys: Vec<crate::srv::RpcKey> = base.history.iter().filter_map(|e| if let Ev::Deliver(key) = e { if key.kind != Kind::Msg { Some(*key) } else { None } } else { None }).collect();
+                for a in 0..keys.len() {
+                    for b2 in a + 1..keys.len() {
+                        jobs.push((bi, Job::Fail2(keys[a], keys[b2])));
+                    }
                 }
             }
             // cancels on one policy of the batch
@@ -139,6 +150,12 @@ pub fn main(tier: Tier, seed: u64) -> i32 {
             Job::Fail(key) => {
                 let at = base.history.iter().position(|e| *e == Ev::Deliver(*key)).unwrap_or(0);
                 walk.injections.push((at, Ev::Fail(*key)));
+            }
+            Job::Fail2(k1, k2) => {
+                for key in [k1, k2] {
+                    let at = base.history.iter().position(|e| *e == Ev::Deliver(*key)).unwrap_or(0);
+                    walk.injections.push((at, Ev::Fail(*key)));
+                }
             }
             Job::Cancel { pol, party, at } => walk.injections.push((*at, Ev::Cancel { pol: *pol, party: *party })),
         }
@@ -214,6 +231,24 @@ pub fn main(tier: Tier, seed: u64) -> i32 {
                 let others_alive_as_leader = snap.actors.iter().filter(|a| a.1 as usize == caller && a.3.is_none() && b.leaders[a.0 as usize] == caller && a.0 as usize != pol).count();
                 if snap.permits[caller] + others_alive_as_leader < b.concurrency {
                     rep.violation(format!("failed_{:?}_rpc:permit_leaked", key.kind).to_lowercase(), format!("{desc}: party {caller} has {} of {} permits at the end ({} other leader-side computations alive)", snap.permits[caller], b.concurrency, others_alive_as_leader), replay.clone());
+                }
+            }
+            Job::Fail2(k1, k2) => {
+                // both callers: no lingering policy, budget back (the second RPC may never have been issued)
+                for key in [k1, k2] {
+                    let caller = key.from as usize;
+                    let pol = key.pol as usize;
+                    let issued = snap.rpc_kinds_seen.iter().any(|(k, _)| k == key);
+                    if !issued {
+                        continue;
+                    }
+                    if snap.actors.iter().any(|a| a.0 as usize == pol && a.1 as usize == caller && a.3.is_none()) {
+                        rep.violation("two_failed_rpcs:caller_lingers", format!("{desc}: policy {pol} is still alive at party {caller}"), replay.clone());
+                    }
+                    let others = snap.actors.iter().filter(|a| a.1 as usize == caller && a.3.is_none() && b.leaders[a.0 as usize] == caller && a.0 as usize != pol).count();
+                    if snap.permits[caller] + others < b.concurrency {
+                        rep.violation("two_failed_rpcs:permit_leaked", format!("{desc}: party {caller} has {} of {} permits", snap.permits[caller], b.concurrency), replay.clone());
+                    }
                 }
             }
             Job::Cancel { party, .. } => {
